@@ -82,7 +82,7 @@ template <class PT> void run_scene(vf::Ctx& c, const char* tname, const Scene& s
       std::string params = vf::JO().str("type", tname).str("scene", sc.name).u("points", n).num("theta", theta).vec("axis", std::vector<LD>{ax[0], ax[1], ax[2]}).vec("translation", std::vector<LD>{tr[0], tr[1], tr[2]}).b("perturbed", noise).i("correspondence_mode", cm).num("kappa_J", kap).done();
       if (!(kap * kap < 1e6L)) { c.trivial(); continue; }   // quantifier: condition number of the normal matrix below 1e6
       LV xref = J.householderQr().solve(Y);
-      LD tol = 16 * P * eps * kap * kap * (xref.norm() + Y.norm() / smax) + 16 * eps * (1 + extent + tr.norm());
+      LD tol = 4 * P * eps * kap * kap * (xref.norm() + Y.norm() / smax) + 16 * eps * (1 + extent + tr.norm());
       if (64 * P * eps * kap * kap > 0.05L) { c.trivial(); continue; }
       LV firstX; bool haveFirst = false;
       for (int ov = 0; ov < 5; ++ov) {
@@ -157,7 +157,7 @@ std::string vf_describe(const std::string& tier) {
   o.str("motions", "rotation angle {0,1e-4,1e-2,0.1} about z (3D: z, x, (1,-1,1)) x translation {0, (0.05,-0.02,0.03), 0.4 x extent}; exact and perturbed (0.01) sources");
   o.str("correspondences", "identity, subset in reversed order, target and normals stored permuted (source index != target index)");
   o.str("overloads", "index-based on a fresh estimator, index-based on one estimator reused for the whole scene, aligned, preconditioned by 1e-3 and 1e3 with setPreconditioner");
-  o.str("oracle", "J and Y rebuilt from the definition in long double; parameters vs Householder-QR solution within 64 p eps kappa^2 (|x|+|Y|/smax); identity+skew+translation shape; normal-equation residual; all overloads agree; pure translation exact; rotation error <= 2 kappa theta^2 (extent+|t|+1) sqrt(p); kappa(J)^2 >= 1e6 or no digits in the scalar type => outside the quantifier (trivial)");
+  o.str("oracle", "J and Y rebuilt from the definition in long double; parameters vs Householder-QR solution within 4 p eps kappa^2 (|x|+|Y|/smax); identity+skew+translation shape; normal-equation residual; all overloads agree; pure translation exact; rotation error <= 2 kappa theta^2 (extent+|t|+1) sqrt(p); kappa(J)^2 >= 1e6 or no digits in the scalar type => outside the quantifier (trivial)");
   return o.done();
 }
 
